@@ -40,7 +40,7 @@ MANIFEST = {
     "note": "Not decided: that every referenced name is in some table, "
             "symbols added by transformations, and anything that needs a Fortran compiler.",
     "technique": "algorithm-template matching + worklist partition rule + "
-                 "CFG dominance",
+                 "CFG dominance + refusal-weakening check against the reviewed guard snapshot",
 }
 FW = "psyclone.psyir.backend.fortran.FortranWriter"
 
